@@ -22,9 +22,13 @@ par g++ -fsanitize=address $BUILD/twin.o $BUILD/mc.o -o $BUILD/c02_twin
 par g++ -fsanitize=address $BUILD/shim.o $BUILD/mc.o -o $BUILD/c02_shim
 par g++ -fsanitize=address $BUILD/flatvec.o $BUILD/mc.o -o $BUILD/c02_flatvec
 parwait
+# one run per group of sub-checks: the driver gives every run an equal share of the deadline
 {
-echo "main $BUILD/c02_main"
-echo "twin $BUILD/c02_twin"
-echo "shim $BUILD/c02_shim"
-echo "flatvec $BUILD/c02_flatvec"
+echo "vector_int $BUILD/c02_main --only vector_int"
+echo "vector_tracked $BUILD/c02_main --only vector_tracked"
+echo "flat $BUILD/c02_main --only flat_"
+echo "portable_vector_int $BUILD/c02_twin --only vector_int"
+echo "portable_vector_tracked $BUILD/c02_twin --only vector_tracked"
+echo "compat_shims $BUILD/c02_shim"
+echo "flat_on_igris_vector $BUILD/c02_flatvec"
 } > $BUILD/runs.txt
